@@ -93,7 +93,7 @@ func main() {
 	// a run that did not reach the cases the property names is not "held"
 	for _, c := range []string{"nearmiss_pub_k255_same_point_confirmed", "nearmiss_secret_variants_kept", "nearmiss_secret_variants_dropped_same_public_key",
 		"passphrase_variants", "typed_error_checked", "no_reader_checked", "files_validated_by_reference", "history_successful_decrypts", "history_subjects",
-		"encodings_files_opened_by_reference_for_recipient:valid-unusual", "encodings_same_point_confirmed", "recorder_logs_judged"} {
+		"encodings_files_opened_by_reference_for_recipient:valid-unusual", "encodings_same_point_confirmed", "recorder_logs_judged", "wiped_image_targets", "wiped_native_image_targets"} {
 		if r.Counter(c) == 0 {
 			r.Inconclusive("counter %s is zero: that part of the workload did not run", c)
 		}
